@@ -21,10 +21,17 @@ Import ListNotations.
 Open Scope N_scope.
 
 (* ------------------------------------------------------------------ how a chunk acts on the stack of open elements *)
+(* Every page stream is wrapped in <head></head><body> ... </body> (the fragment is parsed as a whole document and
+   only the <html> tag is skipped).  Inside a body an HTML parser ignores html/head/body tags, and so does this
+   reading: they are allowed only while no element is open and leave the stack alone. *)
+Definition wrappers : list str := map s2l ["html"; "head"; "body"]%string.
+Definition is_wrapper (n : str) : bool := mem_str n wrappers.
+
 Inductive ev :=
 | EOpen (n : str)      (* start tag of an element that gets an end tag *)
 | EClose (n : str)     (* its end tag *)
 | EBlk                 (* a block-level tag that does not touch the stack (void / opaque block element) *)
+| EWrap                (* an html/head/body tag *)
 | ENone.               (* text, void and opaque inline elements *)
 
 (* the same reading of a chunk that merge_changes uses: name by chunk_tag_name, end tag by the
@@ -32,13 +39,15 @@ Inductive ev :=
 Definition chunk_event (s : str) : ev :=
   if starts_lt s then
     let n := chunk_tag_name s in
-    if tracks_open n then (if second_is_slash s then EClose n else EOpen n)
+    if is_wrapper n then EWrap
+    else if tracks_open n then (if second_is_slash s then EClose n else EOpen n)
     else if is_block_name n then EBlk else ENone
   else ENone.
 
 Definition all_block (st : list str) : bool := forallb is_block_name st.
 
-(* the page side: well nested, and block-level tags only when every open element is block-level *)
+(* the page side: well nested, block-level tags only when every open element is block-level,
+   html/head/body tags only at the top level *)
 Fixpoint balc (l : list str) (st : list str) : option (list str) :=
   match l with
   | [] => Some st
@@ -50,6 +59,7 @@ Fixpoint balc (l : list str) (st : list str) : option (list str) :=
                     | [] => None
                     end
       | EBlk => if all_block st then balc l' st else None
+      | EWrap => match st with [] => balc l' [] | _ => None end
       | ENone => balc l' st
       end
   end.
@@ -72,12 +82,13 @@ Definition ostep (o : ochunk) (st : list entry) : option (list entry) :=
   match o with
   | OOpen => if no_marker st then Some (None :: st) else None       (* markers do not nest *)
   | OClose => match st with None :: st' => Some st' | _ => None end  (* a marker is closed by its own end tag *)
-  | OSynOpen n => push_open n st
-  | OSynClose n => pop_close n st
+  | OSynOpen n => if is_wrapper n then Some st else push_open n st
+  | OSynClose n => if is_wrapper n then Some st else pop_close n st
   | OSrc s => match chunk_event s with
               | EOpen n => push_open n st
               | EClose n => pop_close n st
               | EBlk => if no_marker st then Some st else None
+              | EWrap => Some st
               | ENone => Some st
               end
   end.
@@ -101,6 +112,7 @@ Proof.
   - destruct (is_block_name n && negb (all_block st)); [reflexivity|apply IH].
   - destruct st as [|m st']; [reflexivity|]. destruct (str_eqb m n); [apply IH|reflexivity].
   - destruct (all_block st); [apply IH|reflexivity].
+  - destruct st; [apply IH|reflexivity].
   - apply IH.
 Qed.
 
@@ -112,29 +124,67 @@ Proof. induction S as [|n S IH]; [reflexivity|exact IH]. Qed.
 Lemma names_app a b : names (a ++ b) = names a ++ names b.
 Proof. apply map_app. Qed.
 
+(* the part of the tracked names that is on the stack: everything but html/head/body *)
+Definition nw (cc : list str) : list str := filter (fun n => negb (is_wrapper n)) cc.
+
+Lemma nw_app a b : nw (a ++ b) = nw a ++ nw b.
+Proof. apply filter_app. Qed.
+
+Lemma nw_rev l : nw (rev l) = rev (nw l).
+Proof.
+  induction l as [|x l IH]; [reflexivity|]. cbn [rev]. rewrite nw_app, IH. cbn [nw filter].
+  destruct (negb (is_wrapper x)); cbn [rev app]; [reflexivity|apply app_nil_r].
+Qed.
+
+Lemma nw_In c cc : In c (nw cc) -> In c cc.
+Proof. intros H. apply filter_In in H. apply H. Qed.
+
+Lemma nw_nil_skipn k : forall l, nw l = [] -> nw (skipn k l) = [].
+Proof.
+  induction k as [|k IH]; intros l H; [exact H|]. destruct l as [|x l]; [reflexivity|]. cbn [skipn].
+  apply IH. cbn [nw filter] in H. destruct (negb (is_wrapper x)); [discriminate|exact H].
+Qed.
+
+(* html/head/body are inline, tracked names for the marker machine *)
+Lemma wrappers_table :
+  forallb (fun n => negb (is_block_name n) && tracks_open n && negb (mem_str n Tables.empty_tags)) wrappers = true.
+Proof. vm_compute. reflexivity. Qed.
+
+Lemma wrapper_facts n : is_wrapper n = true ->
+  is_block_name n = false /\ tracks_open n = true /\ mem_str n Tables.empty_tags = false.
+Proof.
+  intros H. apply mem_str_In in H. pose proof wrappers_table as T. rewrite forallb_forall in T.
+  specialize (T n H). apply andb_prop in T as [T T3]. apply andb_prop in T as [T1 T2].
+  repeat split; [destruct (is_block_name n)|exact T2|destruct (mem_str n Tables.empty_tags)]; try reflexivity; discriminate.
+Qed.
+
 (* names tracked inside a marker: inline elements that get an end tag *)
 Definition inline_names (cc : list str) : Prop := Forall (fun n => is_block_name n = false) cc.
 
-Lemma nest_synclose cc : forall R, nest (map OSynClose cc) (names cc ++ R) = Some R.
+Lemma nest_synclose cc : forall R, nest (map OSynClose cc) (names (nw cc) ++ R) = Some R.
 Proof.
-  induction cc as [|n cc IH]; intros R; cbn [map names app nest ostep pop_close]; [reflexivity|].
-  rewrite str_eqb_refl. apply IH.
+  induction cc as [|n cc IH]; intros R; cbn [map nw filter nest ostep]; [reflexivity|].
+  destruct (is_wrapper n); cbn [negb]; [apply IH|].
+  cbn [names map app pop_close]. rewrite str_eqb_refl. apply IH.
 Qed.
 
-Lemma nest_synopen l : forall R, inline_names l -> nest (map OSynOpen l) R = Some (names (rev l) ++ R).
+Lemma nest_synopen l : forall R, inline_names l -> nest (map OSynOpen l) R = Some (names (rev (nw l)) ++ R).
 Proof.
-  induction l as [|n l IH]; intros R H; cbn [map nest ostep rev]; [reflexivity|].
-  inversion H as [|n' l' Hn Hl]; subst. unfold push_open. rewrite Hn. cbn [andb].
-  rewrite (IH _ Hl). unfold names. rewrite map_app, <- app_assoc. reflexivity.
+  induction l as [|n l IH]; intros R H; cbn [map nest ostep rev nw filter]; [reflexivity|].
+  inversion H as [|n' l' Hn Hl]; subst. destruct (is_wrapper n); cbn [negb]; [apply (IH _ Hl)|].
+  unfold push_open. rewrite Hn. cbn [andb].
+  rewrite (IH _ Hl). cbn [rev]. unfold names. rewrite map_app, <- app_assoc. reflexivity.
 Qed.
 
-Lemma nest_synopen_rev cc R : inline_names cc -> nest (map OSynOpen (rev cc)) R = Some (names cc ++ R).
-Proof. intros H. rewrite nest_synopen by (apply Forall_rev, H). rewrite rev_involutive. reflexivity. Qed.
+Lemma nest_synopen_rev cc R : inline_names cc -> nest (map OSynOpen (rev cc)) R = Some (names (nw cc) ++ R).
+Proof. intros H. rewrite nest_synopen by (apply Forall_rev, H). rewrite nw_rev, rev_involutive. reflexivity. Qed.
 
-Lemma all_block_inline cc S : inline_names cc -> all_block (cc ++ S) = true -> cc = [].
+Lemma all_block_inline cc S : inline_names cc -> all_block (nw cc ++ S) = true -> nw cc = [].
 Proof.
-  intros Hcc H. destruct cc as [|c cc]; [reflexivity|]. inversion Hcc as [|c' cc' Hc _]; subst.
-  cbn [app all_block forallb] in H. rewrite Hc in H. discriminate.
+  intros Hcc H. destruct (nw cc) as [|c r] eqn:E; [reflexivity|].
+  assert (Hc : In c cc) by (apply nw_In; rewrite E; left; reflexivity).
+  unfold inline_names in Hcc. rewrite Forall_forall in Hcc. specialize (Hcc c Hc).
+  cbn [app all_block forallb] in H. rewrite Hcc in H. discriminate.
 Qed.
 
 Lemma index_of_In x : forall l k i, index_of x l k = Some i -> In x l.
@@ -143,8 +193,25 @@ Proof.
   destruct (str_eqb x y) eqn:E; [left; symmetry; apply str_eqb_eq, E|right; eapply IH, H].
 Qed.
 
-Lemma index_of_head x l : index_of x (x :: l) 0 = Some 0%nat.
-Proof. cbn [index_of]. rewrite str_eqb_refl. reflexivity. Qed.
+Lemma index_of_none x : forall l k, index_of x l k = None -> ~ In x l.
+Proof.
+  induction l as [|y l IH]; intros k H Hin; cbn [index_of] in H; [exact Hin|].
+  destruct (str_eqb x y) eqn:E; [discriminate|]. destruct Hin as [->|Hin]; [rewrite str_eqb_refl in E; discriminate|].
+  exact (IH _ H Hin).
+Qed.
+
+(* the first occurrence: everything in front of it is a different name *)
+Lemma index_of_split x : forall l k i, index_of x l k = Some i ->
+  exists pre post, l = pre ++ x :: post /\ ~ In x pre /\ skipn (S (i - k)) l = post /\ (k <= i)%nat.
+Proof.
+  induction l as [|y l IH]; intros k i H; cbn [index_of] in H; [discriminate|].
+  destruct (str_eqb x y) eqn:E.
+  - injection H as <-. apply str_eqb_eq in E. subst y. exists [], l. rewrite Nat.sub_diag. repeat split; auto.
+  - destruct (IH _ _ H) as (pre & post & -> & Hn & Hs & Hk). exists (y :: pre), post.
+    repeat split; [| |lia].
+    + intros [->|Hin]; [rewrite str_eqb_refl in E; discriminate|exact (Hn Hin)].
+    + replace (S (i - k)) with (S (S (i - S k))) by lia. cbn [skipn]. exact Hs.
+Qed.
 
 Definition tracked_inline (cc : list str) : Prop :=
   Forall (fun n => is_block_name n = false /\ tracks_open n = true) cc.
@@ -152,16 +219,22 @@ Definition tracked_inline (cc : list str) : Prop :=
 Lemma tracked_inline_names cc : tracked_inline cc -> inline_names cc.
 Proof. intros H. eapply Forall_impl; [|exact H]. intros n [Hn _]. exact Hn. Qed.
 
-Lemma tracked_skipn k cc : tracked_inline cc -> tracked_inline (skipn k cc).
-Proof. apply Forall_skipn. Qed.
-
 Definition cc_of (st : option (list str)) : list str := match st with Some cc => cc | None => [] end.
 
 Definition out_stack (st : option (list str)) (S : list str) : list entry :=
   match st with
-  | Some cc => names cc ++ None :: names S
+  | Some cc => names (nw cc) ++ None :: names S
   | None => names S
   end.
+
+Lemma nw_cons_wrapper n cc : is_wrapper n = true -> nw (n :: cc) = nw cc.
+Proof. intros H. cbn [nw filter]. rewrite H. reflexivity. Qed.
+Lemma nw_cons_plain n cc : is_wrapper n = false -> nw (n :: cc) = n :: nw cc.
+Proof. intros H. cbn [nw filter]. rewrite H. reflexivity. Qed.
+Lemma out_stack_cons_wrapper n cc S : is_wrapper n = true -> out_stack (Some (n :: cc)) S = out_stack (Some cc) S.
+Proof. intros H. cbn [out_stack]. rewrite (nw_cons_wrapper _ _ H). reflexivity. Qed.
+Lemma out_stack_cons_plain n cc S : is_wrapper n = false -> out_stack (Some (n :: cc)) S = Some n :: out_stack (Some cc) S.
+Proof. intros H. cbn [out_stack]. rewrite (nw_cons_plain _ _ H). reflexivity. Qed.
 
 (* ------------------------------------------------------------------ the marker state machine keeps the nesting *)
 Lemma nest_cons o l st : nest (o :: l) st = match ostep o st with Some st' => nest l st' | None => None end.
@@ -170,8 +243,6 @@ Lemma ostep_open st : no_marker st = true -> ostep OOpen st = Some (None :: st).
 Proof. intros H. cbn [ostep]. rewrite H. reflexivity. Qed.
 Lemma ostep_close st : ostep OClose (None :: st) = Some st.
 Proof. reflexivity. Qed.
-Lemma no_marker_names_app cc S : no_marker (names cc ++ names S) = true.
-Proof. rewrite <- names_app. apply no_marker_names. Qed.
 
 Ltac src_step := rewrite nest_cons; unfold ostep, chunk_event;
   repeat match goal with
@@ -180,69 +251,110 @@ Ltac src_step := rewrite nest_cons; unfold ostep, chunk_event;
 
 Theorem merge_changes_nests : forall chunks st S S',
   (match st with Some cc => tracked_inline cc | None => True end) ->
-  balc chunks (cc_of st ++ S) = Some S' ->
+  balc chunks (nw (cc_of st) ++ S) = Some S' ->
   nest (merge_changes_l chunks st) (out_stack st S) = Some (names S').
 Proof.
   induction chunks as [|chunk rest IH]; intros st S S' Hst Hb; cbn [merge_changes_l].
-  - cbn [balc] in Hb. destruct st as [cc|]; cbn [cc_of out_stack app] in *.
-    + injection Hb as <-. rewrite nest_app, nest_synclose. rewrite nest_cons, ostep_close.
+  - cbn [balc] in Hb. destruct st as [cc|]; cbn [cc_of out_stack nw filter app] in *.
+    + injection Hb as <-. rewrite nest_app, nest_synclose; cbn [app]; rewrite nest_cons, ostep_close.
       rewrite nest_synopen_rev by (apply tracked_inline_names, Hst). rewrite names_app. reflexivity.
     + injection Hb as <-. reflexivity.
   - destruct chunk as [|c0 cr].
     { cbn [balc] in Hb. unfold chunk_event in Hb. cbn [starts_lt] in Hb. apply IH; assumption. }
     set (chunk := c0 :: cr) in *. cbn [balc] in Hb. unfold chunk_event in Hb.
     destruct (starts_lt chunk) eqn:Elt.
+    2: { (* text *)
+      destruct st as [cc|]; cbn [cc_of out_stack nw filter app] in *.
+      - src_step. apply (IH (Some cc) S S' Hst Hb).
+      - rewrite nest_cons, ostep_open by apply no_marker_names. src_step. apply (IH (Some []) S S'); [constructor|exact Hb]. }
+    destruct (is_wrapper (chunk_tag_name chunk)) eqn:Ew.
+    + (* an html/head/body tag: nothing is open; the marker machine tracks it as an inline element, the stack ignores it *)
+      destruct (wrapper_facts _ Ew) as (Eb & Etr & Hne).
+      assert (Hnil : nw (cc_of st) = [] /\ S = [] /\ balc rest [] = Some S').
+      { destruct (nw (cc_of st) ++ S) eqn:E; [|discriminate]. apply app_eq_nil in E as [E1 E2]. auto. }
+      clear Hb. destruct Hnil as (Hcc & -> & Hb).
+      destruct (second_is_slash chunk) eqn:Esl.
+      * destruct st as [cc|]; cbn [cc_of out_stack] in *.
+        -- rewrite Eb. destruct (index_of (chunk_tag_name chunk) cc 0) as [i|] eqn:Ei.
+           ++ cbn [app]. src_step.
+              pose proof (IH (Some (skipn (S i) cc)) [] S') as IH'. cbn [out_stack cc_of] in IH'.
+              rewrite (nw_nil_skipn _ _ Hcc) in IH'. rewrite Hcc. apply IH'; [apply Forall_skipn, Hst|exact Hb].
+           ++ rewrite Hne. rewrite nest_app, nest_synclose; cbn [app]; rewrite nest_cons, ostep_close. src_step.
+              rewrite nest_cons, ostep_open by reflexivity.
+              rewrite nest_app, nest_synopen_rev by (apply tracked_inline_names, Hst).
+              apply (IH (Some cc) [] S' Hst). cbn [cc_of]. rewrite Hcc. exact Hb.
+        -- cbn [app]. src_step. apply (IH None [] S' I Hb).
+      * rewrite Eb.
+        destruct st as [cc|]; cbn [cc_of out_stack] in *.
+        -- rewrite Etr; cbv zeta; cbn [app]. src_step.
+           change (names (nw cc) ++ None :: names []) with (out_stack (Some cc) []). rewrite <- (out_stack_cons_wrapper _ cc [] Ew).
+           apply (IH (Some (chunk_tag_name chunk :: cc)) [] S'); [constructor; [split; assumption|exact Hst]|].
+           cbn [cc_of]. rewrite (nw_cons_wrapper _ _ Ew), Hcc. exact Hb.
+        -- rewrite Etr; cbv zeta; cbn [app]. rewrite nest_cons, ostep_open by reflexivity. src_step.
+           change (None :: names []) with (out_stack (Some []) []). rewrite <- (out_stack_cons_wrapper _ [] [] Ew).
+           apply (IH (Some [chunk_tag_name chunk]) [] S'); [constructor; [split; assumption|constructor]|].
+           cbn [cc_of]. rewrite (nw_cons_wrapper _ _ Ew). exact Hb.
     + destruct (second_is_slash chunk) eqn:Esl.
       * (* an end tag *)
-        destruct st as [cc|]; cbn [cc_of out_stack app] in *.
+        destruct st as [cc|]; cbn [cc_of out_stack] in *.
         -- destruct (is_block_name (chunk_tag_name chunk)) eqn:Eb.
            ++ (* block-level end tag inside a marker: nothing inline can be open *)
               destruct (tracks_open (chunk_tag_name chunk)) eqn:Etr.
-              ** destruct cc as [|c cc'].
+              ** destruct (nw cc) as [|c cc'] eqn:Ecc.
                  --- cbn [app] in Hb. destruct S as [|m S2]; [discriminate|].
                      destruct (str_eqb m (chunk_tag_name chunk)) eqn:Em; [|discriminate].
-                     cbn [map app names]. rewrite nest_cons, ostep_close. src_step.
-                     cbn [pop_close]. rewrite Em. apply (IH None S2 S' I Hb).
+                     rewrite nest_app; rewrite <- Ecc, nest_synclose; cbn [app]; rewrite nest_cons, ostep_close. src_step.
+                     cbn [names map pop_close]. rewrite Em. apply (IH None S2 S' I Hb).
                  --- exfalso. cbn [app] in Hb. destruct (str_eqb c (chunk_tag_name chunk)) eqn:Ec; [|discriminate].
-                     apply str_eqb_eq in Ec. subst c. inversion Hst as [|c' cc'' [Hc _] _]; subst. congruence.
-              ** destruct (all_block (cc ++ S)) eqn:Eall; [|discriminate].
-                 pose proof (all_block_inline cc S (tracked_inline_names cc Hst) Eall) as ->.
-                 cbn [map app names]. rewrite nest_cons, ostep_close. src_step. rewrite no_marker_names.
-                 apply (IH None S S' I Hb).
+                     apply str_eqb_eq in Ec. subst c.
+                     assert (Hin : In (chunk_tag_name chunk) cc) by (apply nw_In; rewrite Ecc; left; reflexivity).
+                     unfold tracked_inline in Hst. rewrite Forall_forall in Hst. destruct (Hst _ Hin) as [Hc _]. congruence.
+              ** destruct (all_block (nw cc ++ S)) eqn:Eall; [|discriminate].
+                 pose proof (all_block_inline cc S (tracked_inline_names cc Hst) Eall) as Ecc.
+                 rewrite nest_app, nest_synclose; cbn [app]; rewrite nest_cons, ostep_close. src_step. rewrite no_marker_names.
+                 rewrite Ecc in Hb. apply (IH None S S' I Hb).
            ++ destruct (index_of (chunk_tag_name chunk) cc 0) as [i|] eqn:Ei.
               ** (* closes an element opened inside the marker: it is the innermost one *)
                  assert (Htr : tracks_open (chunk_tag_name chunk) = true).
                  { apply index_of_In in Ei. unfold tracked_inline in Hst. rewrite Forall_forall in Hst. apply (Hst _ Ei). }
                  rewrite Htr in Hb.
-                 destruct cc as [|c cc']; [cbn in Ei; discriminate|]. cbn [app] in Hb.
-                 destruct (str_eqb c (chunk_tag_name chunk)) eqn:Ec; [|discriminate].
-                 pose proof Ec as Ec'. apply str_eqb_eq in Ec'. subst c. rewrite index_of_head in Ei. injection Ei as <-.
-                 cbn [app]. src_step. cbn [names map app pop_close]. rewrite Ec. cbn [skipn].
-                 apply (IH (Some cc') S S'); [inversion Hst; assumption|exact Hb].
-              ** destruct (tracks_open (chunk_tag_name chunk)) eqn:Etr.
+                 destruct (index_of_split _ _ _ _ Ei) as (pre & post & -> & Hnp & Hsk & _). rewrite Nat.sub_0_r in Hsk. rewrite Hsk.
+                 rewrite nw_app in *. cbn [nw filter] in *. rewrite Ew in *. cbn [negb] in *. fold (nw post) in *.
+                 assert (Hpre : nw pre = []).
+                 { destruct (nw pre) as [|p r] eqn:Ep; [reflexivity|]. exfalso. cbn [app] in Hb.
+                   destruct (str_eqb p (chunk_tag_name chunk)) eqn:Ec; [|discriminate]. apply str_eqb_eq in Ec. subst p.
+                   apply Hnp, nw_In. rewrite Ep. left. reflexivity. }
+                 rewrite Hpre in *. cbn [app] in *. rewrite str_eqb_refl in Hb.
+                 src_step. cbn [names map app pop_close]. rewrite str_eqb_refl.
+                 apply (IH (Some post) S S'); [|exact Hb].
+                 unfold tracked_inline in *. apply Forall_app in Hst as [_ Hst]. inversion Hst; assumption.
+              ** apply index_of_none in Ei.
+                 destruct (tracks_open (chunk_tag_name chunk)) eqn:Etr.
                  --- (* closes an element opened before the marker: the marker is split around it *)
                      assert (Hne : mem_str (chunk_tag_name chunk) Tables.empty_tags = false).
                      { unfold tracks_open in Etr. apply andb_prop in Etr as [_ Etr]. destruct (mem_str _ Tables.empty_tags); [discriminate|reflexivity]. }
                      rewrite Hne.
-                     destruct cc as [|c cc'].
-                     +++ cbn [app] in Hb. destruct S as [|m S2]; [discriminate|].
-                         destruct (str_eqb m (chunk_tag_name chunk)) eqn:Em; [|discriminate].
-                         cbn [map app rev names]. rewrite nest_cons, ostep_close. src_step.
-                         cbn [pop_close]. rewrite Em. fold (names S2).
-                         rewrite nest_cons, ostep_open by apply no_marker_names.
-                         apply (IH (Some []) S2 S'); [constructor|exact Hb].
-                     +++ exfalso. cbn [app] in Hb. destruct (str_eqb c (chunk_tag_name chunk)) eqn:Ec; [|discriminate].
-                         apply str_eqb_eq in Ec. subst c. rewrite index_of_head in Ei. discriminate.
+                     assert (Ecc : nw cc = []).
+                     { destruct (nw cc) as [|c r] eqn:Ecc; [reflexivity|]. exfalso. cbn [app] in Hb.
+                       destruct (str_eqb c (chunk_tag_name chunk)) eqn:Ec; [|discriminate]. apply str_eqb_eq in Ec. subst c.
+                       apply Ei, nw_In. rewrite Ecc. left. reflexivity. }
+                     rewrite Ecc in Hb. cbn [app] in Hb. destruct S as [|m S2]; [discriminate|].
+                     destruct (str_eqb m (chunk_tag_name chunk)) eqn:Em; [|discriminate].
+                     rewrite nest_app, nest_synclose; cbn [app]; rewrite nest_cons, ostep_close. src_step.
+                     cbn [names map pop_close]. rewrite Em. fold (names S2).
+                     rewrite nest_cons, ostep_open by apply no_marker_names.
+                     rewrite nest_app, nest_synopen_rev by (apply tracked_inline_names, Hst).
+                     apply (IH (Some cc) S2 S' Hst). cbn [cc_of]. rewrite Ecc. exact Hb.
                  --- (* an end tag of an element that is never tracked: emitted as it is (</iframe>), or - for a name
                         that is not in empty_tags - marker closed and re-opened around it, inline elements too *)
                      destruct (mem_str (chunk_tag_name chunk) Tables.empty_tags).
                      { cbn [app]. src_step. apply (IH (Some cc) S S' Hst Hb). }
-                     rewrite nest_app, nest_synclose. rewrite nest_cons, ostep_close. src_step.
+                     rewrite nest_app, nest_synclose; cbn [app]; rewrite nest_cons, ostep_close. src_step.
                      rewrite nest_cons, ostep_open by apply no_marker_names.
                      rewrite nest_app, nest_synopen_rev by (apply tracked_inline_names, Hst).
                      apply (IH (Some cc) S S' Hst Hb).
         -- (* outside a marker *)
-           cbn [app].
+           cbn [nw filter app] in *.
            destruct (tracks_open (chunk_tag_name chunk)) eqn:Etr.
            ++ src_step. destruct S as [|m S2]; [discriminate|]. destruct (str_eqb m (chunk_tag_name chunk)) eqn:Em; [|discriminate].
               cbn [names map pop_close]. rewrite Em. apply (IH None S2 S' I Hb).
@@ -252,36 +364,37 @@ Proof.
       * (* a start tag *)
         destruct (is_block_name (chunk_tag_name chunk)) eqn:Eb.
         -- (* block-level: every open element is block-level, so no inline element is open inside the marker *)
-           assert (Hall : all_block (cc_of st ++ S) = true /\
-                          balc rest (if tracks_open (chunk_tag_name chunk) then chunk_tag_name chunk :: cc_of st ++ S else cc_of st ++ S) = Some S').
-           { destruct (tracks_open (chunk_tag_name chunk)); rewrite ?Eb in Hb; cbn [andb] in Hb; destruct (all_block (cc_of st ++ S)); cbn [negb] in Hb;
+           assert (Hall : all_block (nw (cc_of st) ++ S) = true /\
+                          balc rest (if tracks_open (chunk_tag_name chunk) then chunk_tag_name chunk :: nw (cc_of st) ++ S else nw (cc_of st) ++ S) = Some S').
+           { destruct (tracks_open (chunk_tag_name chunk)); rewrite ?Eb in Hb; cbn [andb] in Hb; destruct (all_block (nw (cc_of st) ++ S)); cbn [negb] in Hb;
                try discriminate; split; try reflexivity; exact Hb. }
            clear Hb. destruct Hall as [Hall Hb].
-           destruct st as [cc|]; cbn [cc_of out_stack app] in *.
-           ++ pose proof (all_block_inline cc S (tracked_inline_names cc Hst) Hall) as ->.
-              cbn [map app names] in *. rewrite nest_cons, ostep_close.
+           destruct st as [cc|]; cbn [cc_of out_stack] in *.
+           ++ pose proof (all_block_inline cc S (tracked_inline_names cc Hst) Hall) as Ecc.
+              rewrite Ecc in Hb. cbn [app] in Hb.
+              rewrite nest_app, nest_synclose; cbn [app]; rewrite nest_cons, ostep_close.
               destruct (tracks_open (chunk_tag_name chunk)) eqn:Etr; src_step.
               ** unfold push_open. rewrite Eb, no_marker_names. cbn [andb negb]. apply (IH None (chunk_tag_name chunk :: S) S' I Hb).
               ** rewrite no_marker_names. apply (IH None S S' I Hb).
-           ++ cbn [app] in *. destruct (tracks_open (chunk_tag_name chunk)) eqn:Etr; src_step.
+           ++ cbn [nw filter app] in *. destruct (tracks_open (chunk_tag_name chunk)) eqn:Etr; src_step.
               ** unfold push_open. rewrite Eb, no_marker_names. cbn [andb negb]. apply (IH None (chunk_tag_name chunk :: S) S' I Hb).
               ** rewrite no_marker_names. apply (IH None S S' I Hb).
         -- (* inline: stays inside the marker (which is opened if need be) *)
-           rewrite ?Eb in Hb. cbn [andb] in Hb.
-           destruct st as [cc|]; cbn [cc_of out_stack app] in *.
-           ++ destruct (tracks_open (chunk_tag_name chunk)) eqn:Etr; src_step; rewrite ?Eb in Hb; cbn [andb] in Hb.
+           destruct st as [cc|]; cbn [cc_of out_stack] in *.
+           ++ destruct (tracks_open (chunk_tag_name chunk)) eqn:Etr; cbv zeta; cbn [app]; src_step; rewrite ?Eb in Hb; cbn [andb] in Hb.
               ** unfold push_open. rewrite Eb. cbn [andb].
-                 apply (IH (Some (chunk_tag_name chunk :: cc)) S S'); [constructor; [split; assumption|exact Hst]|exact Hb].
+                 change (Some (chunk_tag_name chunk) :: names (nw cc) ++ None :: names S) with (Some (chunk_tag_name chunk) :: out_stack (Some cc) S).
+                 rewrite <- (out_stack_cons_plain _ cc S Ew).
+                 apply (IH (Some (chunk_tag_name chunk :: cc)) S S'); [constructor; [split; assumption|exact Hst]|].
+                 cbn [cc_of]. rewrite (nw_cons_plain _ _ Ew). exact Hb.
               ** apply (IH (Some cc) S S' Hst Hb).
-           ++ rewrite nest_cons, ostep_open by apply no_marker_names.
-              destruct (tracks_open (chunk_tag_name chunk)) eqn:Etr; src_step; rewrite ?Eb in Hb; cbn [andb] in Hb.
+           ++ cbn [nw filter app] in *. destruct (tracks_open (chunk_tag_name chunk)) eqn:Etr; cbv zeta; cbn [app]; (rewrite nest_cons, ostep_open by apply no_marker_names); src_step; rewrite ?Eb in Hb; cbn [andb] in Hb.
               ** unfold push_open. rewrite Eb. cbn [andb].
-                 apply (IH (Some [chunk_tag_name chunk]) S S'); [constructor; [split; assumption|constructor]|exact Hb].
+                 change (Some (chunk_tag_name chunk) :: None :: names S) with (Some (chunk_tag_name chunk) :: out_stack (Some []) S).
+                 rewrite <- (out_stack_cons_plain _ [] S Ew).
+                 apply (IH (Some [chunk_tag_name chunk]) S S'); [constructor; [split; assumption|constructor]|].
+                 cbn [cc_of]. rewrite (nw_cons_plain _ _ Ew). exact Hb.
               ** apply (IH (Some []) S S'); [constructor|exact Hb].
-    + (* text *)
-      destruct st as [cc|]; cbn [cc_of out_stack app] in *.
-      * src_step. apply (IH (Some cc) S S' Hst Hb).
-      * rewrite nest_cons, ostep_open by apply no_marker_names. src_step. apply (IH (Some []) S S'); [constructor|exact Hb].
 Qed.
 
 (* ------------------------------------------------------------------ unchanged runs *)
@@ -294,6 +407,7 @@ Proof.
       destruct (is_block_name n && negb (all_block S)); [discriminate|]. apply (IH (n :: S) S' H).
     + destruct S as [|m S2]; [discriminate|]. cbn [names map pop_close]. destruct (str_eqb m n); [|discriminate]. apply (IH S2 S' H).
     + rewrite no_marker_names. destruct (all_block S); [|discriminate]. apply (IH S S' H).
+    + destruct S; [|discriminate]. apply (IH [] S' H).
     + apply (IH S S' H).
 Qed.
 
@@ -309,6 +423,7 @@ Proof.
     + destruct (is_block_name n && negb (all_block S)); [reflexivity|apply IH].
     + destruct S as [|m S2]; [reflexivity|]. destruct (str_eqb m n); [apply IH|reflexivity].
     + destruct (all_block S); [apply IH|reflexivity].
+    + destruct S; [apply IH|reflexivity].
     + apply IH.
 Qed.
 
@@ -334,11 +449,11 @@ Proof.
   { destruct new_side; apply Forall_slice; assumption. }
   destruct t.
   - apply nest_srcs. rewrite balc_expand_equal by exact Hs. exact Hb.
-  - destruct new_side; cbn [does_insert does_delete]; apply (merge_changes_nests _ None S S' I Hb).
+  - destruct new_side; cbn [does_insert does_delete]; apply (merge_changes_nests _ None S S' I); exact Hb.
   - destruct new_side; cbn [does_insert does_delete is_equal orb] in *; [discriminate|].
-    apply (merge_changes_nests _ None S S' I Hb).
+    apply (merge_changes_nests _ None S S' I); exact Hb.
   - destruct new_side; cbn [does_insert does_delete is_equal orb] in *; [|discriminate].
-    apply (merge_changes_nests _ None S S' I Hb).
+    apply (merge_changes_nests _ None S S' I); exact Hb.
 Qed.
 
 Lemma view_nests (new_side : bool) (old new : list token) (ops : list opcode) : forall i j ei ej S S',
@@ -407,25 +522,29 @@ Qed.
 (* ------------------------------------------------------------------ which trees meet the hypothesis *)
 (* A structural, decidable description of the pages the theorem speaks about: every element's
    start and end tag read back to one and the same name (true of every name an HTML tokenizer can
-   produce), opaque and void elements do not look like an element that needs closing, and a
-   block-level element never sits inside an inline one.  [ab] = all open ancestors are block-level. *)
+   produce), opaque and void elements do not look like an element that needs closing, a
+   block-level element never sits inside an inline one, and head/body only occur at the top.
+   [top] = no element is open; [ab] = all open ancestors are block-level. *)
 Definition neutral_ok (ab : bool) (s : str) : bool :=
   match chunk_event s with ENone => true | EBlk => ab | _ => false end.
 
-Fixpoint tree_ok (ab : bool) (e : el) : bool :=
+Fixpoint tree_ok (top ab : bool) (e : el) : bool :=
   match e with
   | El tag attrs text children tail source =>
       if mem_str tag Tables.undiffable_content_tags && negb (str_eqb tag (s2l "img")) then neutral_ok ab source
       else
         let st := start_tag (El tag attrs text children tail source) in
-        if is_void tag then neutral_ok ab st && forallb (tree_ok ab) children
+        if is_void tag then neutral_ok ab st && forallb (tree_ok top ab) children
         else match chunk_event st, chunk_event (end_tag (El tag attrs text children tail source)) with
-             | EOpen n, EClose m => str_eqb n m && (negb (is_block_name n) || ab) && forallb (tree_ok (is_block_name n && ab)) children
-             | ENone, ENone => forallb (tree_ok ab) children
-             | EBlk, EBlk => ab && forallb (tree_ok ab) children
+             | EOpen n, EClose m => str_eqb n m && (negb (is_block_name n) || ab) && forallb (tree_ok false (is_block_name n && ab)) children
+             | ENone, ENone => forallb (tree_ok top ab) children
+             | EBlk, EBlk => ab && forallb (tree_ok top ab) children
+             | EWrap, EWrap => top && forallb (tree_ok top ab) children
              | _, _ => false
              end
   end.
+
+Definition is_top (S : list str) : bool := match S with [] => true | _ => false end.
 
 Lemma balc_neutral_cons s l S : neutral_ok (all_block S) s = true -> balc (s :: l) S = balc l S.
 Proof.
@@ -443,9 +562,12 @@ Proof.
   apply (escape_no_angle true w).
 Qed.
 
+Definition el_balanced (c : el) : Prop :=
+  forall S, tree_ok (is_top S) (all_block S) c = true -> balc (map chunk_str (flatten_el c)) S = Some S.
+
 Lemma balc_kids children : forall S,
-  Forall (fun c => forall S, tree_ok (all_block S) c = true -> balc (map chunk_str (flatten_el c)) S = Some S) children ->
-  forallb (tree_ok (all_block S)) children = true ->
+  Forall el_balanced children ->
+  forallb (tree_ok (is_top S) (all_block S)) children = true ->
   forall l, balc (map chunk_str (List.concat (map flatten_el children)) ++ l) S = balc l S.
 Proof.
   induction children as [|c cs IH]; intros S HF Hok l; [reflexivity|].
@@ -463,8 +585,7 @@ Proof.
 Qed.
 
 (* the serialisation of an admissible tree leaves the stack as it found it *)
-Theorem flatten_el_balanced e : forall S,
-  tree_ok (all_block S) e = true -> balc (map chunk_str (flatten_el e)) S = Some S.
+Theorem flatten_el_balanced e : el_balanced e.
 Proof.
   induction e as [tag attrs text children tail source IHc] using el_ind'. intros S Hok.
   cbn [flatten_el tree_ok] in *.
@@ -491,13 +612,14 @@ Proof.
                       match str_eqb tag [97], assoc_str (s2l "href") attrs with
                       | true, Some ((_ :: _) as h) => [CHref h] | _, _ => [] end ++ [CEnd (end_tag e0)] ++ word_chunks tail)) S = Some S).
     { rewrite Hhead. cbn [balc].
-      destruct (chunk_event (start_tag e0)) as [n| | |] eqn:Es; destruct (chunk_event (end_tag e0)) as [|m| |] eqn:Ee; try discriminate.
+      destruct (chunk_event (start_tag e0)) as [n| | | |] eqn:Es; destruct (chunk_event (end_tag e0)) as [|m| | |] eqn:Ee; try discriminate.
       - (* an element with an end tag *)
         apply andb_prop in Hok as [Hok Hkids]. apply andb_prop in Hok as [Hnm Hblk].
         assert (Hchk : is_block_name n && negb (all_block S) = false).
         { destruct (is_block_name n); [|reflexivity]. cbn [negb orb andb] in *. rewrite Hblk. reflexivity. }
         rewrite Hchk. rewrite !map_app, balc_words.
         change (is_block_name n && all_block S) with (all_block (n :: S)) in Hkids.
+        change false with (is_top (n :: S)) in Hkids.
         rewrite (balc_kids children (n :: S) IHc Hkids), href_chunk_none.
         cbn [map app chunk_str balc]. rewrite Ee, Hnm.
         rewrite <- (app_nil_r (map chunk_str (word_chunks tail))), balc_words. reflexivity.
@@ -506,20 +628,25 @@ Proof.
         rewrite !map_app, balc_words, (balc_kids children S IHc Hkids), href_chunk_none.
         cbn [map app chunk_str balc]. rewrite Ee, Hab.
         rewrite <- (app_nil_r (map chunk_str (word_chunks tail))), balc_words. reflexivity.
+      - (* head / body: only at the top *)
+        apply andb_prop in Hok as [Htop Hkids]. destruct S as [|x S]; [|discriminate].
+        rewrite !map_app, balc_words, (balc_kids children [] IHc Hkids), href_chunk_none.
+        cbn [map app chunk_str balc]. rewrite Ee.
+        rewrite <- (app_nil_r (map chunk_str (word_chunks tail))), balc_words. reflexivity.
       - rewrite !map_app, balc_words, (balc_kids children S IHc Hok), href_chunk_none.
         cbn [map app chunk_str balc]. rewrite Ee.
         rewrite <- (app_nil_r (map chunk_str (word_chunks tail))), balc_words. reflexivity. }
     destruct text; destruct children; destruct tail; exact Hgen.
 Qed.
 
-(* the page itself (contents of the root element) *)
-Definition page_ok (root : el) : bool := forallb (tree_ok true) (el_children root).
+(* the page itself (contents of the root element: head and body) *)
+Definition page_ok (root : el) : bool := forallb (tree_ok true true) (el_children root).
 
 Theorem page_ok_balanced root : page_ok root = true -> balc (nb (map chunk_str (flatten_root root))) [] = Some [].
 Proof.
   intros Hok. rewrite balc_nb. destruct root as [tag attrs text children tail source]. cbn [flatten_root el_children page_ok] in *.
   rewrite !map_app, balc_words.
-  assert (HF : Forall (fun c => forall S, tree_ok (all_block S) c = true -> balc (map chunk_str (flatten_el c)) S = Some S) children).
+  assert (HF : Forall el_balanced children).
   { apply Forall_forall. intros c _. apply flatten_el_balanced. }
   rewrite (balc_kids children [] HF Hok).
   rewrite <- (app_nil_r (map chunk_str _)), href_chunk_none. reflexivity.
@@ -532,3 +659,18 @@ Theorem admissible_pages_nest (old_root new_root : el) rules cap (new_side : boo
   nest (view_l new_side (prepare old_root cap) (prepare new_root cap)
                (token_opcodes rules (prepare old_root cap) (prepare new_root cap))) [] = Some [].
 Proof. intros H. apply pages_single_sided_nest, page_ok_balanced, H. Qed.
+
+(* ------------------------------------------------------------------ executable report for the harness *)
+Definition is_done {A} (o : option (list A)) : bool := match o with Some [] => true | _ => false end.
+
+(* for one page pair: [page_ok old; page_ok new; stream of old well nested; stream of new well nested;
+   deletions view nests; insertions view nests] - the theorems say 1 => 3 => 5 and 2 => 4 => 6 *)
+Definition nesting_report (old_root new_root : el) (rules : option (list rule)) (cap : N) : list bool :=
+  let old := prepare old_root cap in
+  let new := prepare new_root cap in
+  let ops := token_opcodes rules old new in
+  [page_ok old_root; page_ok new_root;
+   is_done (balc (nb (map chunk_str (flatten_root old_root))) []);
+   is_done (balc (nb (map chunk_str (flatten_root new_root))) []);
+   is_done (nest (view_l false old new ops) []);
+   is_done (nest (view_l true old new ops) [])].
